@@ -246,16 +246,28 @@ def expr_case_ok(res) -> str | None:
     return None
 
 
-def run_expressions(ck: Check, drv: LeanDriver, n: int, r):
+def run_expressions(ck: Check, drv: LeanDriver, n: int, r, batch: int = 1500):
     setup_world()
-    sources = [(None, s) for s in gen_cel.ODD]
-    for _ in range(n):
-        g = Gen(r, r.sample(c14.LABELS, r.randint(1, 3)), depth=r.choice([1, 2, 2, 3, 3, 4]))
-        e = g.expr()
-        sources.append((e, text(e)))
     slots = [(k, nm, f) for k in KINDS for nm, f in SLOTS[k]]
+    first = [(None, s) for s in gen_cel.ODD]
+    done = 0
+    serial = 0
+    while done < n or first:
+        sources, first = first, []
+        for _ in range(min(batch, n - done)):
+            g = Gen(r, r.sample(c14.LABELS, r.randint(1, 3)), depth=r.choice([1, 2, 2, 3, 3, 4]))
+            e = g.expr()
+            sources.append((e, text(e)))
+        done += min(batch, n - done)
+        serial = _expression_batch(ck, drv, sources, slots, r, serial)
+        setup_world()   # the cache grows with every prepare_and_cache
+
+
+def _expression_batch(ck: Check, drv: LeanDriver, sources, slots, r, serial: int) -> int:
     reqs, keep = [], []
-    for i, (e, src) in enumerate(sources):
+    for e, src in sources:
+        i = serial
+        serial += 1
         # (1) the reference analysis itself
         tree, got = c14.impl_extract(src)
         ck.evaluated()
@@ -263,13 +275,16 @@ def run_expressions(ck: Check, drv: LeanDriver, n: int, r):
         if tree is not None:
             if got[0] == "raise":
                 small = src
-                if e is not None:
+                if e is not None and len(ck.violations) < 40:
                     try:
                         small = text(c14.shrink_expr(e, lambda s: c14.impl_extract(text(s))[1][0] == "raise"))
                     except Exception:
                         pass
-                ck.violate({"kind": "extract", "text": small},
-                           f"extract_argument_structure raised on a parseable expression: {c14.impl_extract(small)[1][1]}")
+                if len(ck.violations) < 200:
+                    ck.violate({"kind": "extract", "text": small},
+                               f"extract_argument_structure raised on a parseable expression: {c14.impl_extract(small)[1][1]}")
+                else:
+                    ck.count("further-violations")
             try:
                 reqs.append({"op": "extract", "t": tree_to_wire(tree)})
                 keep.append((src, got))
@@ -277,7 +292,7 @@ def run_expressions(ck: Check, drv: LeanDriver, n: int, r):
                 ck.disagree({"kind": "extract", "text": src}, "no constructor", str(u), "parse-tree-kinds")
             for k in gen_cel.tree_kinds(tree):
                 ck.count(f"kind:{k}")
-        # (2) in a field of a definition, through the real prepare_* (ODD shapes: every slot)
+        # (2) in a field of a definition, through the real prepare_* (the odd receivers: every slot)
         todo = slots if e is None and i < 16 else [slots[(i * 7 + j) % len(slots)] for j in range(2)]
         for kind, slot, place in todo:
             spec = base_spec(kind, r)
@@ -287,23 +302,28 @@ def run_expressions(ck: Check, drv: LeanDriver, n: int, r):
             ck.evaluated()
             ck.count(f"{kind}.{slot}:{res['r']}")
             ck.count("via:" + ("cache.prepare_and_cache" if via else "prepare_*"))
-            ck.nontriv(f"{kind}.{slot}:{src}")
+            ck.nontriv(hash(f"{kind}.{slot}:{src}"))
             bad = expr_case_ok(res)
             if bad:
-                ck.violate({"kind": "prepare", "resource": kind, "slot": slot, "spec": spec, "via_cache": via},
-                           f"prepare of {kind} with `{src}` in {slot} {bad}")
+                if len(ck.violations) < 200:
+                    ck.violate({"kind": "prepare", "resource": kind, "slot": slot, "spec": spec, "via_cache": via},
+                               f"prepare of {kind} with `{src}` in {slot} {bad}")
+                else:
+                    ck.count("further-violations")
             ck.sample({"resource": kind, "slot": slot, "expr": src, "result": res["r"]})
-        if i % 400 == 399:
-            setup_world()   # the cache grows with every prepare_and_cache
     answers = c14.ask(ck, drv, reqs)
     for (src, got), ans in zip(keep, answers):
         if ans is None:
+            continue
+        if len(ck.disagreements) > 300:
+            ck.count("further-disagreements")
             continue
         model = "raise" if "raise" in ans else "ok" if "ok" in ans else "driver-error"
         if model != got[0]:
             ck.disagree({"kind": "extract", "text": src}, model, got[0], "extract-returns")
         elif model == "ok" and sorted(set(ans["ok"])) != sorted(set(got[1])):
             ck.disagree({"kind": "extract", "text": src}, sorted(set(ans["ok"])), got[1], "extract-keys")
+    return serial
 
 
 # --------------------------------------------------------------------------- spec stream
@@ -530,11 +550,19 @@ def shrink_spec(kind, spec, fails):
     return cur
 
 
-def run_specs(ck: Check, drv: LeanDriver, n: int, r):
-    setup_world()
+def run_specs(ck: Check, drv: LeanDriver, n: int, r, batch: int = 5000):
+    done = 0
+    while done < n:
+        m = min(batch, n - done)
+        setup_world()
+        _spec_batch(ck, drv, m, r, done)
+        done += m
+
+
+def _spec_batch(ck: Check, drv: LeanDriver, n: int, r, offset: int):
     cases = []
     for i in range(n):
-        kind = KINDS[i % len(KINDS)]
+        kind = KINDS[(offset + i) % len(KINDS)]
         spec, tag = mutate(kind, base_spec(kind, r), r)
         if not jsonable(spec):
             continue
@@ -549,7 +577,7 @@ def run_specs(ck: Check, drv: LeanDriver, n: int, r):
         ck.count(f"schema:{'valid' if verdict[0] else 'invalid' if verdict[0] is False else 'unknown'}->{res['r']}")
         ck.count(f"spec-kind:{kind}")
         if verdict[0] is False:
-            ck.nontriv(json.dumps([kind, spec], sort_keys=True, default=str))
+            ck.nontriv(hash(json.dumps([kind, spec], sort_keys=True, default=str)))
         bad = spec_oracle(verdict, res)
         if bad:
             def fails(c, kind=kind, via=via):
@@ -563,20 +591,21 @@ def run_specs(ck: Check, drv: LeanDriver, n: int, r):
                     what = spec_oracle(v2, impl_prepare(kind, small, via_cache=via)) or bad
                 except common.Infra:
                     small = spec
-            ck.violate({"kind": "spec", "resource": kind, "spec": small, "via_cache": via, "mutation": tag},
-                       f"{kind}: {what}")
+            if len(ck.violations) < 200:
+                ck.violate({"kind": "spec", "resource": kind, "spec": small, "via_cache": via, "mutation": tag},
+                           f"{kind}: {what}")
+            else:
+                ck.count("further-violations")
         if verdict[0] is not None and res["r"] != "raised":
             reqs.append({"op": "gate", "valid": bool(verdict[0]),
                          "body": res["r"] if res["r"] in ("prepared", "permFail", "retry") else "prepared",
                          "compiles": res["compile"], "lookups": res["lookup"]})
             keep.append((kind, spec, verdict, res))
-        if len(keep) % 1000 == 999:
-            setup_world()
     answers = c14.ask(ck, drv, reqs)
     for (kind, spec, verdict, res), ans in zip(keep, answers):
         if ans is None:
             continue
-        if verdict[0] is False:
+        if verdict[0] is False and len(ck.disagreements) <= 300:
             mine = {"trace": ["validate"] + ["compile"] * res["compile"] + ["lookup"] * res["lookup"], "result": res["r"]}
             if ans != mine:
                 ck.disagree({"kind": "spec", "resource": kind, "spec": spec}, ans, mine, "schema-gate-first")
